@@ -350,6 +350,7 @@ class Ep:
         self.masks: List[List[str]] = [[] for _ in range(B)]
         self.done: List[List[int]] = [[] for _ in range(B)]
         self.times: List[List[int]] = [[] for _ in range(B)]
+        self.ready: List[List[str]] = [[] for _ in range(B)]  # td['is_ready'] (op_is_ready feature)
         self.empty_mask_rows: List[tuple] = []
         self.td = None
         self.steps = 0
@@ -383,6 +384,8 @@ def run_real(env, td0: TensorDict, choose: Callable[[int, int, List[int]], int],
             ep.masks[r].append(rl.mask_str(mask[r]))
             ep.done[r].append(int(done[r]))
             ep.times[r].append(exact_int(tm[r]))
+            if "is_ready" in td.keys():
+                ep.ready[r].append(rl.mask_str(td["is_ready"][r]))
         if bool(done.all()):
             if pad_left <= 0:
                 break
@@ -447,8 +450,8 @@ def real_reward(env, td, actions: Optional[List[List[int]]] = None) -> List[int]
 # ----------------------------------------------------------------------------------------------
 def compare_row(ctx, tag: str, inst: dict, N: int, mno: bool, jssp: bool, actions: List[int], masks, done, times,
                 final: Optional[dict], reward: Optional[int], f: Dict[str, str], sfx: str = "",
-                what: str = "", observables=("mask", "done", "time", "schedule", "reward"),
-                real_broke: Optional[str] = None) -> None:
+                what: str = "", observables=("mask", "done", "time", "schedule", "reward", "ready"),
+                real_broke: Optional[str] = None, ready: Optional[List[str]] = None) -> None:
     """`f` = parsed driver reply (`fjsp.episode`, or one row of `fjsp.batch` with suffix `sfx`)."""
     det = {"inst": inst, "N": N, "mask_no_ops": mno, "jssp": jssp, "actions": actions}
     if "masks" + sfx not in f:
@@ -471,6 +474,12 @@ def compare_row(ctx, tag: str, inst: dict, N: int, mno: bool, jssp: bool, action
         tm = [int(x) for x in f["times" + sfx].split(",")][:T]
         if tm != times:
             ctx.disagreement(f"{tag}: time differs ({what})", {**det, "real": times, "model": tm})
+    if "ready" in observables and ready is not None and ("ready" + sfx) in f:
+        rm = f["ready" + sfx].split(",")[:T]
+        if rm != ready[:T]:
+            k = next((k for k in range(min(len(rm), T)) if rm[k] != ready[k]), -1)
+            ctx.disagreement(f"{tag}: is_ready feature differs ({what})", {**det, "step": k, "real": ready[k] if k >= 0 else ready,
+                                                                          "model": rm[k] if k >= 0 else rm})
     model_err = "1" in f.get("err" + sfx, "")[: T + 1]
     if model_err and not real_broke:
         ctx.disagreement(f"{tag}: model reports a fired assertion, real code ran through ({what})", det)
